@@ -1,4 +1,4 @@
-From Verif Require Import Base.Prelude Base.StrUtil Base.Index Model.MapSpec Model.MapSpecSpec Proofs.IndexFacts.
+From Verif Require Import Base.Prelude Base.StrUtil Base.Index Model.MapSpec Model.MapSpecSpec Proofs.IndexFacts Proofs.StrFacts.
 
 Lemma mapM_ok_map {A B} (f : A -> result B) (g : A -> B) l :
   (forall x, In x l -> f x = Ok (g x)) -> mapM f l = Ok (map g l).
@@ -22,4 +22,323 @@ Proof.
   intros Hl Hpos. rewrite <- unravel_enumerates. apply mapM_ok_map. intros n _.
   unfold output_key. rewrite Hl, Nat.eqb_refl. cbn [negb].
   unfold unravel_checked. now rewrite existsb_zero_false.
+Qed.
+
+(* ---------- constructor accepts exactly the declaratively well-formed specs ---------- *)
+Lemma mapM_mk_aspec l :
+  mapM (fun na => mk_aspec (fst na) (snd na)) l =
+  if forallb wf_aspec (raw_of l) then Ok (raw_of l) else Err ValueError.
+Proof.
+  induction l as [|[n ax] l IH]; [reflexivity|].
+  cbn [mapM raw_of map forallb fst snd]. unfold mk_aspec at 1. unfold wf_aspec at 1. cbn [aname axes].
+  destruct (valid_name n && forallb valid_axis ax); cbn [bind andb]; [|reflexivity].
+  rewrite IH. fold (raw_of l). destruct (forallb wf_aspec (raw_of l)); reflexivity.
+Qed.
+
+Lemma forallb_flat_map {A B} (p : B -> bool) (f : A -> list B) l :
+  forallb p (flat_map f l) = forallb (fun a => forallb p (f a)) l.
+Proof. induction l as [|x l IH]; cbn; [reflexivity|]. now rewrite forallb_app, IH. Qed.
+
+Lemma existsb_negb_forallb {A} (p : A -> bool) l : existsb p l = negb (forallb (fun x => negb (p x)) l).
+Proof. induction l as [|x l IH]; cbn; [reflexivity|]. rewrite IH. destruct (p x); reflexivity. Qed.
+
+Lemma mk_mapspec_wf i o :
+  forallb wf_aspec i = true -> forallb wf_aspec o = true ->
+  mk_mapspec i o = if wf_decl {| ins := i; outs := o |} then Ok {| ins := i; outs := o |}
+                   else match o with [] => Err IndexError | _ => Err ValueError end.
+Proof.
+  intros Hi Ho. unfold wf_decl, mk_mapspec. cbn [ins outs]. rewrite Hi, Ho. cbn [andb].
+  destruct o as [|o0 rest]; [reflexivity|].
+  rewrite existsb_negb_forallb. fold no_colon.
+  change (fun x : aspec => negb (existsb is_none (axes x))) with no_colon.
+  destruct (forallb no_colon (o0 :: rest)); cbn [negb andb]; [|reflexivity].
+  destruct (forallb (fun x => list_eqb str_eqb (indices x) (indices o0)) rest); cbn [negb andb]; [|reflexivity].
+  rewrite forallb_flat_map.
+  destruct (forallb (fun a => forallb (fun ix => mem_str ix (indices o0)) (indices a)) i); reflexivity.
+Qed.
+
+Theorem build_accepts_iff_wf i o m :
+  build i o = Ok m <-> (wf_decl {| ins := raw_of i; outs := raw_of o |} = true
+                        /\ m = {| ins := raw_of i; outs := raw_of o |}).
+Proof.
+  unfold build. rewrite !mapM_mk_aspec.
+  destruct (forallb wf_aspec (raw_of i)) eqn:Hi; cbn [bind].
+  - destruct (forallb wf_aspec (raw_of o)) eqn:Ho; cbn [bind].
+    + rewrite mk_mapspec_wf by assumption.
+      destruct (wf_decl _) eqn:W.
+      * split; [intros H; injection H as <-; auto | intros [_ ->]; reflexivity].
+      * split; [destruct (raw_of o); discriminate | intros [H _]; discriminate].
+    + split; [discriminate|]. intros [H _]. unfold wf_decl in H. cbn [ins outs] in H.
+      rewrite Hi, Ho in H. discriminate.
+  - split; [discriminate|]. intros [H _]. unfold wf_decl in H. cbn [ins outs] in H.
+    rewrite Hi in H. discriminate.
+Qed.
+
+Corollary build_rejects_malformed i o :
+  wf_decl {| ins := raw_of i; outs := raw_of o |} = false -> exists e, build i o = Err e.
+Proof.
+  intros W. destruct (build i o) as [m|e] eqn:B; [|eauto].
+  apply build_accepts_iff_wf in B as [W' _]. congruence.
+Qed.
+
+(* ---------- input_keys selects, for each input, the coordinates named by its axes ---------- *)
+Lemma nodup_str_NoDup l : nodup_str l = true <-> NoDup l.
+Proof.
+  induction l as [|x l IH]; cbn; [split; [constructor|reflexivity]|].
+  rewrite andb_true_iff, negb_true_iff, mem_str_false, IH. split.
+  - intros [H1 H2]. now constructor.
+  - intros H. inversion H; auto.
+Qed.
+
+Lemma pos_of_Some x l : In x l -> exists p, pos_of x l = Some p /\ p < length l.
+Proof.
+  induction l as [|y l IH]; cbn; [tauto|]. intros H.
+  destruct (str_eqb x y) eqn:E; [exists 0; split; [reflexivity|lia]|].
+  apply str_eqb_neq in E. destruct H as [->|H]; [congruence|].
+  destruct (IH H) as [p [Hp Hl]]. exists (S p). rewrite Hp. split; [reflexivity|lia].
+Qed.
+
+Lemma zip_lookup_notin names : forall key x, ~ In x names -> zip_lookup names key x = None.
+Proof.
+  induction names as [|a names IH]; intros [|k key] x Hx; cbn; try reflexivity.
+  rewrite IH by (intros H; apply Hx; now right).
+  destruct (str_eqb a x) eqn:E; [|reflexivity]. apply str_eqb_eq in E. exfalso. apply Hx. now left.
+Qed.
+
+Lemma zip_lookup_pos names : forall key x p,
+  NoDup names -> length key = length names -> pos_of x names = Some p ->
+  zip_lookup names key x = nth_error key p.
+Proof.
+  induction names as [|n names IH]; intros [|k key] x p Hnd Hlen Hp; cbn in *; try discriminate.
+  inversion Hnd as [|? ? Hn Hnd']; subst. injection Hlen as Hlen.
+  rewrite (str_eqb_sym n x). destruct (str_eqb x n) eqn:E.
+  - injection Hp as <-. apply str_eqb_eq in E. subst x.
+    now rewrite zip_lookup_notin.
+  - destruct (pos_of x names) as [q|] eqn:Q; [|discriminate]. injection Hp as <-.
+    rewrite (IH key x q Hnd' Hlen Q). cbn.
+    destruct (nth_error key q) eqn:N; [reflexivity|].
+    (* q < length names = length key, contradiction *)
+    exfalso. apply nth_error_None in N.
+    assert (q < length names). { clear - Q. revert q Q. induction names as [|a names IH]; intros q Q; cbn in Q; [discriminate|].
+      destruct (str_eqb x a); [injection Q as <-; cbn; lia|]. destruct (pos_of x names) eqn:P; [|discriminate].
+      injection Q as <-. cbn. specialize (IH _ eq_refl). lia. }
+    lia.
+Qed.
+
+Lemma filter_NoDup {A} (p : A -> bool) l : NoDup l -> NoDup (filter p l).
+Proof.
+  induction 1 as [|x l Hx Hnd IH]; cbn; [constructor|].
+  destruct (p x); [|assumption]. constructor; [|assumption]. intros H. apply filter_In in H as [H _]. contradiction.
+Qed.
+
+Lemma somes_In {A} (x : A) l : In x (somes l) <-> In (Some x) l.
+Proof.
+  induction l as [|[y|] l IH]; cbn; [tauto| |].
+  - rewrite IH. split; intros [H|H]; auto; [left; congruence | left; congruence].
+  - rewrite IH. split; [auto|]. intros [H|H]; [discriminate|assumption].
+Qed.
+
+Section InputKeys.
+  Variable m : mapspec.
+  Hypothesis Hwf : wf_decl m = true.
+  Hypothesis Hnames : NoDup (map aname (ins m)).
+  Hypothesis Hout : NoDup (output_indices m).
+
+  Lemma ext_NoDup : NoDup (external_indices m).
+  Proof. unfold external_indices. now apply filter_NoDup. Qed.
+
+  Lemma input_axis_in_ext a x : In a (ins m) -> In (Some x) (axes a) -> In x (external_indices m).
+  Proof.
+    intros Ha Hx. unfold external_indices. apply filter_In. split.
+    - unfold wf_decl in Hwf. apply andb_true_iff in Hwf as [_ H]. unfold output_indices.
+      destruct (outs m) as [|o0 rest]; [discriminate|].
+      apply andb_true_iff in H as [_ H]. rewrite forallb_forall in H. specialize (H a Ha).
+      rewrite forallb_forall in H. apply mem_str_In. apply H. unfold indices. now apply somes_In.
+    - apply mem_str_In. unfold input_indices_list. apply in_flat_map. exists a. split; [assumption|].
+      unfold indices. now apply somes_In.
+  Qed.
+
+  Variable pos : list nat.
+  Hypothesis Hpos : length pos = length (external_indices m).
+
+  Definition key_of (a : aspec) : list kitem :=
+    map (fun ax => match ax with
+                   | None => KAll
+                   | Some x => KInt (match zip_lookup (external_indices m) pos x with Some k => k | None => 0 end)
+                   end) (axes a).
+
+  Lemma input_key_of_ok a : In a (ins m) ->
+    input_key_of (zip_lookup (external_indices m) pos) a = Ok (key_of a)
+    /\ input_key_ok (external_indices m) pos a (key_of a) = true.
+  Proof.
+    intros Ha. unfold input_key_of, key_of, input_key_ok.
+    assert (forall ax, In ax (axes a) -> match ax with Some x => In x (external_indices m) | None => True end) as Hax.
+    { intros [x|] Hx; [|exact I]. eapply input_axis_in_ext; eassumption. }
+    induction (axes a) as [|ax l IH]; [split; reflexivity|].
+    assert (forall ax, In ax l -> match ax with Some x => In x (external_indices m) | None => True end) as Hl
+      by (intros; apply Hax; now right).
+    destruct (IH Hl) as [IH1 IH2]. cbn [mapM map forallb2].
+    destruct ax as [x|].
+    - specialize (Hax (Some x) (or_introl eq_refl)). cbn in Hax.
+      destruct (pos_of_Some _ _ Hax) as [p [Hp Hlt]].
+      rewrite (zip_lookup_pos _ pos x p ext_NoDup Hpos Hp) in *.
+      destruct (nth_error pos p) as [c|] eqn:N; [|apply nth_error_None in N; lia].
+      cbn [bind]. rewrite IH1. cbn [bind]. split; [reflexivity|].
+      rewrite Hp, N, Nat.eqb_refl. exact IH2.
+    - cbn [bind]. rewrite IH1. cbn [bind]. split; [reflexivity|exact IH2].
+  Qed.
+
+  Lemma dict_get_set_same {V} (d : list (str * V)) k v : dict_get (dict_set d k v) k = Some v.
+  Proof.
+    induction d as [|[k' v'] d IH]; cbn; [now rewrite str_eqb_refl|].
+    destruct (str_eqb k k') eqn:E; cbn; rewrite E; [reflexivity|assumption].
+  Qed.
+
+  Lemma dict_get_set_other {V} (d : list (str * V)) k k' v : k <> k' -> dict_get (dict_set d k v) k' = dict_get d k'.
+  Proof.
+    intros Hne. induction d as [|[k2 v2] d IH]; cbn.
+    - destruct (str_eqb k' k) eqn:E; [apply str_eqb_eq in E; congruence|reflexivity].
+    - destruct (str_eqb k k2) eqn:E; cbn.
+      + apply str_eqb_eq in E. subst k2. destruct (str_eqb k' k) eqn:E'; [apply str_eqb_eq in E'; congruence|reflexivity].
+      + destruct (str_eqb k' k2); [reflexivity|assumption].
+  Qed.
+
+  Lemma dict_set_length_new {V} (d : list (str * V)) k v :
+    dict_get d k = None -> length (dict_set d k v) = S (length d).
+  Proof.
+    induction d as [|[k' v'] d IH]; cbn; [reflexivity|]. destruct (str_eqb k k') eqn:E; [discriminate|].
+    intros H. cbn. now rewrite IH.
+  Qed.
+
+  Lemma input_keys_fold l d0 :
+    (forall a, In a l -> In a (ins m)) -> NoDup (map aname l) ->
+    (forall a, In a l -> dict_get d0 (aname a) = None) ->
+    exists d,
+      fold_left (fun acc a => do d <- acc; do k <- input_key_of (zip_lookup (external_indices m) pos) a; Ok (dict_set d (aname a) k))
+                l (Ok d0) = Ok d
+      /\ length d = length d0 + length l
+      /\ (forall a, In a l -> dict_get d (aname a) = Some (key_of a))
+      /\ (forall k, ~ In k (map aname l) -> dict_get d k = dict_get d0 k).
+  Proof.
+    revert d0. induction l as [|a l IH]; intros d0 Hin Hnd Hfresh.
+    - exists d0. cbn. repeat split; auto; lia.
+    - cbn [fold_left bind]. destruct (input_key_of_ok a (Hin a (or_introl eq_refl))) as [E _]. rewrite E. cbn [bind].
+      inversion Hnd as [|? ? Ha Hnd']; subst.
+      destruct (IH (dict_set d0 (aname a) (key_of a))) as [d [Hd [Hlen [Hget Hother]]]].
+      + intros; apply Hin; now right.
+      + assumption.
+      + intros b Hb. rewrite dict_get_set_other; [apply Hfresh; now right|].
+        intros Eab. apply Ha. rewrite Eab. now apply in_map.
+      + exists d. split; [exact Hd|]. split.
+        * rewrite Hlen, dict_set_length_new by (apply Hfresh; now left). cbn. lia.
+        * split.
+          -- intros b [<-|Hb]; [|now apply Hget]. rewrite Hother by assumption. apply dict_get_set_same.
+          -- intros k Hk. rewrite Hother by (intros H; apply Hk; now right).
+             apply dict_get_set_other. intros E'. apply Hk. left. assumption.
+  Qed.
+End InputKeys.
+
+Theorem input_keys_select m sh n :
+  wf_decl m = true -> NoDup (map aname (ins m)) -> NoDup (output_indices m) ->
+  length sh = length (external_indices m) -> forallb (fun d => 0 <? d) sh = true ->
+  exists d, input_keys m sh n = Ok d /\ input_keys_ok m (unravel sh n) d = true.
+Proof.
+  intros Hwf Hnames Hout Hlen Hpos. unfold input_keys.
+  rewrite Hlen, Nat.eqb_refl. cbn [negb]. unfold unravel_checked. rewrite existsb_zero_false by assumption.
+  cbn [bind].
+  assert (length (unravel sh n) = length (external_indices m)) as Hp by (now rewrite unravel_length).
+  edestruct (input_keys_fold m) with (pos := unravel sh n) (l := ins m) (d0 := @nil (str * list kitem))
+    as [d [Hd [Hl [Hget _]]]]; eauto.
+  exists d. split; [exact Hd|]. unfold input_keys_ok. cbn in Hl. rewrite Hl, Nat.eqb_refl. cbn [andb].
+  apply forallb_forall. intros a Ha. rewrite (Hget a Ha).
+  eapply input_key_of_ok; eauto.
+Qed.
+
+(* ---------- rename / add_axes map well-formed specs to well-formed specs of the expected structure ---------- *)
+Definition renamed (ren : list (str * str)) (a : aspec) : aspec :=
+  {| aname := match dict_get ren (aname a) with Some n => n | None => aname a end; axes := axes a |}.
+Definition rename_struct (m : mapspec) ren : mapspec :=
+  {| ins := map (renamed ren) (ins m); outs := map (renamed ren) (outs m) |}.
+
+Lemma mapM_rn ren l :
+  mapM (fun a => mk_aspec (match dict_get ren (aname a) with Some n => n | None => aname a end) (axes a)) l =
+  if forallb wf_aspec (map (renamed ren) l) then Ok (map (renamed ren) l) else Err ValueError.
+Proof.
+  induction l as [|a l IH]; [reflexivity|]. cbn [mapM map forallb].
+  unfold mk_aspec at 1. unfold wf_aspec at 1. change (axes (renamed ren a)) with (axes a).
+  change (aname (renamed ren a)) with (match dict_get ren (aname a) with Some n => n | None => aname a end).
+  destruct (valid_name _ && forallb valid_axis (axes a)); cbn [bind andb]; [|reflexivity].
+  rewrite IH. destruct (forallb wf_aspec (map (renamed ren) l)); reflexivity.
+Qed.
+
+Lemma renamed_id ren l :
+  existsb (fun n => is_ok (match dict_get ren n with Some v => Ok v | None => Err KeyError end)) (map aname l) = false ->
+  map (renamed ren) l = l.
+Proof.
+  induction l as [|a l IH]; [reflexivity|]. cbn [map existsb]. intros H. apply orb_false_iff in H as [H1 H2].
+  rewrite IH by assumption. f_equal. unfold renamed. destruct (dict_get ren (aname a)); [discriminate|]. now destruct a.
+Qed.
+
+Theorem rename_wf m ren :
+  wf_decl m = true ->
+  (wf_decl (rename_struct m ren) = true -> rename m ren = Ok (rename_struct m ren))
+  /\ (forall r, rename m ren = Ok r -> r = rename_struct m ren /\ wf_decl r = true).
+Proof.
+  intros Hwf. unfold rename.
+  destruct (existsb _ (map aname (ins m) ++ map aname (outs m))) eqn:E; cbn [negb].
+  - rewrite !mapM_rn. unfold rename_struct.
+    destruct (forallb wf_aspec (map (renamed ren) (ins m))) eqn:Hi; cbn [bind].
+    + destruct (forallb wf_aspec (map (renamed ren) (outs m))) eqn:Ho; cbn [bind].
+      * rewrite mk_mapspec_wf by assumption.
+        destruct (wf_decl {| ins := map (renamed ren) (ins m); outs := map (renamed ren) (outs m) |}) eqn:W.
+        -- split; [reflexivity|]. intros r H. injection H as <-. auto.
+        -- split; [discriminate|]. intros r H. destruct (map (renamed ren) (outs m)); discriminate.
+      * split; [|discriminate]. intros W. unfold wf_decl in W. cbn [ins outs] in W. rewrite Hi, Ho in W. discriminate.
+    + split; [|discriminate]. intros W. unfold wf_decl in W. cbn [ins outs] in W. rewrite Hi in W. discriminate.
+  - rewrite existsb_app in E. apply orb_false_iff in E as [E1 E2].
+    unfold rename_struct. rewrite (renamed_id ren (ins m) E1), (renamed_id ren (outs m) E2).
+    assert ({| ins := ins m; outs := outs m |} = m) as -> by now destruct m.
+    split; [reflexivity|]. intros r H. injection H as <-. auto.
+Qed.
+
+Definition extended (ax : list (option str)) (a : aspec) : aspec := {| aname := aname a; axes := axes a ++ ax |}.
+Definition add_axes_struct (m : mapspec) ax : mapspec :=
+  {| ins := map (extended ax) (ins m); outs := map (extended ax) (outs m) |}.
+Definition fresh_axes (ax : list (option str)) (a : aspec) : bool :=
+  negb (existsb (fun x => match x with Some _ => existsb (axis_eqb x) (axes a) | None => false end) ax).
+
+Lemma mapM_add ax l :
+  mapM (fun a => aspec_add_axes a ax) l =
+  if forallb (fresh_axes ax) l && forallb wf_aspec (map (extended ax) l) then Ok (map (extended ax) l)
+  else Err ValueError.
+Proof.
+  induction l as [|a l IH]; [reflexivity|]. cbn [mapM map forallb].
+  unfold aspec_add_axes at 1. unfold fresh_axes at 1.
+  destruct (existsb _ ax); cbn [negb andb bind]; [reflexivity|].
+  unfold mk_aspec. unfold wf_aspec at 1. change (axes (extended ax a)) with (axes a ++ ax).
+  change (aname (extended ax a)) with (aname a).
+  destruct (valid_name (aname a) && forallb valid_axis (axes a ++ ax)); cbn [bind andb].
+  - rewrite IH. destruct (forallb (fresh_axes ax) l && forallb wf_aspec (map (extended ax) l)); reflexivity.
+  - now rewrite andb_false_r.
+Qed.
+
+Theorem add_axes_wf m ax :
+  (forallb (fresh_axes ax) (ins m ++ outs m) = true -> wf_decl (add_axes_struct m ax) = true ->
+   add_axes m ax = Ok (add_axes_struct m ax))
+  /\ (forall r, add_axes m ax = Ok r ->
+        r = add_axes_struct m ax /\ wf_decl r = true /\ forallb (fresh_axes ax) (ins m ++ outs m) = true).
+Proof.
+  unfold add_axes. rewrite !mapM_add, forallb_app. unfold add_axes_struct.
+  destruct (forallb (fresh_axes ax) (ins m)); cbn [andb bind].
+  2:{ split; [discriminate|discriminate]. }
+  destruct (forallb wf_aspec (map (extended ax) (ins m))) eqn:Hi; cbn [bind].
+  2:{ split; [|discriminate]. intros _ W. unfold wf_decl in W. cbn [ins outs] in W. rewrite Hi in W. discriminate. }
+  destruct (forallb (fresh_axes ax) (outs m)); cbn [andb bind].
+  2:{ split; discriminate. }
+  destruct (forallb wf_aspec (map (extended ax) (outs m))) eqn:Ho; cbn [bind].
+  2:{ split; [|discriminate]. intros _ W. unfold wf_decl in W. cbn [ins outs] in W. rewrite Hi, Ho in W. discriminate. }
+  rewrite mk_mapspec_wf by assumption.
+  destruct (wf_decl {| ins := map (extended ax) (ins m); outs := map (extended ax) (outs m) |}) eqn:W.
+  - split; [reflexivity|]. intros r H. injection H as <-. auto.
+  - split; [discriminate|]. intros r H. destruct (map (extended ax) (outs m)); discriminate.
 Qed.
